@@ -1,17 +1,17 @@
 import Ledger.Interp.Run
 
 /-!
-The fragment of the shared language on which the agreement of the two runtime
-MODELS is proved (`Ledger/Props/C26i.lean`), as decidable predicates (core-only: the
+The fragments of the shared language on which the agreement of the two runtime MODELS
+is proved (`Ledger/Props/C26i.lean`), as decidable predicates (core-only: the
 `interpmodel` handler evaluates them on every generated case, so the evidence says how
-many cases the theorem covers, and names — by the first failing condition — the class
-of every program outside it).
+many cases the theorems cover, and names — by the first failing condition — the class of
+every program outside them).
 
-F1 = programs the machine compiles, made of `send` / `send [A *]` from plain, `max`,
-in-order sources (bounded / unbounded overdraft, `@world`) to account / in-order
-destinations, `set_tx_meta`, `set_account_meta`, any variables; WITHOUT allotments,
-`kept`, `save`, `print`, `fail`; whose expressions evaluate (on the machine) to values
-of the expected kind, with
+F2 = programs the machine compiles, made of `send` / `send [A *]` from plain, `max`,
+in-order sources (bounded / unbounded overdraft, `@world`) and allotment sources, to account
+/ in-order / allotment destinations (arbitrarily nested), `set_tx_meta`, `set_account_meta`,
+any variable declarations; WITHOUT `kept`, `save`, `print`, `fail`, portion variables in
+allotments; whose expressions evaluate (on the machine) to values of the expected kind, with
   * caps, overdraft bounds and destination maxima that are monetaries ≥ 0 in the
     asset of the statement (a negative one is refused by the machine but read as 0 by
     the interpreter; one in another asset is only looked at by the interpreter while
@@ -19,8 +19,15 @@ of the expected kind, with
   * no account VARIABLE holding `world` in source position (the machine refuses it,
     the interpreter treats it as `@world`);
   * portion literals both parsers read alike (`010/100` is octal for the machine);
-  * the two front ends resolving the variables alike (`FrontAgree`: decided by running
-    both; see `frontAgree_novars` for the case proved outright).
+  * allotments made of literal portions and `remaining` on which both runtimes compute the
+    same shares, ≥ 0 and summing to 1 (`allotOK`; true of every allotment the compiler
+    accepts, decided here instead of derived from the compiler's checks), and a sent amount
+    ≥ 0 when the source is an allotment;
+  * the two front ends resolving the input alike (`FrontAgree`: decided by running both —
+    NOT proved in general: extraneous variables, number / monetary text formats and
+    `balance(@world)` are handled differently by the two runtimes; PROVED for programs
+    without variable declarations, `frontAgree_novars`).
+F1 = the allotment-free programs of F2.
 -/
 namespace Ledger.Interp
 open Ledger.Machine
@@ -252,6 +259,12 @@ def FrontAgree (s : Script) (inp : Input) : Bool :=
   | _, _ => false
 
 /-! ## F2 and F1 -/
+
+/-- The machine's compiler accepts the program. -/
+def compiles (p : Script) : Bool :=
+  match typecheck p with
+  | .ok _ => true
+  | .error _ => false
 
 /-- First condition of F2 that fails (`""` = the program is in F2). -/
 def whyNotF2 (s : Script) (inp : Input) : String :=
